@@ -62,6 +62,8 @@ def alphabet(typ):
     ops.append(["isub", 1])
     ops += [["imul", 2], ["imul", 0], ["imul", [[[0], 1]]], ["imul", [[[1], 1], [[], 1]]], ["ipow", 2],
             ["update", [[[0, 1], 1], [[2], 0]]], ["update", [[[3], 2]]], ["clear"], ["refresh"], ["copy"]]
+    if typ in LABELLED:
+        ops.append(["convert"])     # call every conversion and throw the results away: later states must not depend on it
     if typ in ("PCBO", "PCSO"):
         ops += [["con", 0], ["con", 1], ["con", 2]]
     return ops
@@ -86,7 +88,8 @@ def true_vars(M):
 
 def full_key(M):
     d = M.__dict__
-    return (type(M).__name__, tuple((k, float(v)) for k, v in M.items()), snap(d))
+    # full=True: EVERY attribute (also ones this harness does not know, e.g. a memo added later) is part of the state key
+    return (type(M).__name__, tuple((k, float(v)) for k, v in M.items()), snap(d, full=True))
 
 
 def invariants(M, typ, spin):
@@ -256,6 +259,14 @@ def make_step(typ, with_forms=True):
                     if type(r) is not type(M) or dict(r) != dict(M):
                         v("copy", "copy() gives %s" % short(r))
                     M = r
+            elif name == "convert":
+                def f(M=M):
+                    for t in ("to_pubo", "to_puso", "to_qubo", "to_quso", "to_enumerated"):
+                        try:
+                            getattr(M, t)()
+                        except Exception:  # noqa -- conversions of this state are judged by the forms oracle, not here
+                            pass
+                r, _w = call(f)
             elif name == "con":
                 rel, D = CONSTRAINTS[op[1]]
                 P = mkdict(typ, D)
@@ -274,6 +285,10 @@ def make_step(typ, with_forms=True):
                       % (anc_expected, sorted(new_anc), sorted(vars_before, key=repr)))
             for k, m in invariants(M, typ, spin):
                 v(k, m)
+            if last:
+                # the state key is taken BEFORE the oracles below call any conversion: the conversions the oracle makes
+                # must not leak into the identity of the state (a memo filled by them would merge it with "convert" states)
+                key_before_oracles = full_key(M)
             if not vv and last:
                 for k, m in refresh_oracle(M, typ, spin):
                     v(k, m)
@@ -284,7 +299,7 @@ def make_step(typ, with_forms=True):
                 return {"key": None, "viol": vv, "expand": False}
             viol = vv
         big = max((abs(v) for v in M.values()), default=0)
-        return {"key": full_key(M), "viol": viol, "expand": big <= 64 and len(M) <= 48, "why": "size bound (|coef| > 64 or > 48 terms)",
+        return {"key": key_before_oracles if hist else full_key(M), "viol": viol, "expand": big <= 64 and len(M) <= 48, "why": "size bound (|coef| > 64 or > 48 terms)",
                 "nontrivial": set(M.variables) != true_vars(M) or len(M) >= 2}
 
     return step
